@@ -186,6 +186,10 @@ CHECKS["C15"]["stages"].append(
     {"name": "tcp-teardown", "pkg": "srvworld", "run": "^TestC15TCP$",
      "quick": {"shards": 2, "checks": 2000, "timeout_s": 420},
      "thorough": {"shards": 8, "checks": 6000, "size": 40, "timeout_s": 2400}})
+CHECKS["C15"]["stages"].append(
+    {"name": "tls-listener-teardown", "pkg": "srvworld", "run": "^TestC15TLS$",
+     "quick": {"shards": 2, "checks": 120, "timeout_s": 400},
+     "thorough": {"shards": 8, "checks": 2000, "timeout_s": 2000}})
 CHECKS["C04"]["stages"].append(
     {"name": "tcp-isolation", "pkg": "srvworld", "run": "^TestC04TCP$",
      "quick": {"shards": 2, "checks": 2000, "timeout_s": 420},
